@@ -48,6 +48,14 @@ func runOnce(param json.RawMessage, ctx *explore.Ctx, viols *[]xrun.Viol) string
 func main() {
 	flag.Parse()
 	par.ServeIfWorker(map[string]par.Handler{"recv": xrun.Handler(runRecv), "once": xrun.Handler(runOnce)})
+	if v, ok := ev.ReplayRequested(); ok {
+		if strings.HasPrefix(v.Part, "run-once") {
+			xrun.Replay(v, runOnce)
+		} else {
+			xrun.Replay(v, runRecv)
+		}
+		return
+	}
 	if os.Getenv("VERIF_DEBUG") != "" {
 		cfg := recvworld.Cfg{DownloadLimit: 1, DecompressLimit: 1, Instances: []string{"b", "c"}, Corrupt: []string{"b:newest"}, Faults: true, Publish: true, Vanish: true, Polls: 2}
 		if os.Getenv("VERIF_PROF") != "" {
